@@ -469,6 +469,188 @@ fn is_merge(case: &Case, v: &Versions, seen: &[usize], rec: &Record) -> bool {
     }
 }
 
+// ------------------------------------------------------------------------------------------------
+// section retry: callers that re-issue the read after a failed attempt (RetryStrategy back-off)
+// ------------------------------------------------------------------------------------------------
+
+#[derive(Clone, Debug, Serialize, Deserialize)]
+pub struct Attempt {
+    pub replies: Vec<Reply>,
+    pub term: Term,
+}
+
+#[derive(Clone, Debug, Serialize, Deserialize)]
+pub struct RetryCase {
+    pub class: Class,
+    pub pads: Vec<(u8, bool)>,
+    pub q: Q,
+    pub target: Target,
+    /// total attempts the caller is allowed (RetryStrategy::N)
+    pub allowed: u8,
+    /// what the network answers to the first, second, ... attempt
+    pub attempts: Vec<Attempt>,
+}
+
+pub fn retry_strategy() -> BoxedStrategy<RetryCase> {
+    let attempt = (proptest::collection::vec(reply_strategy(false), 0..6), prop_oneof![Just(Term::Finished), Just(Term::NotFound), Just(Term::QuorumFailed), Just(Term::Timeout)])
+        .prop_map(|(replies, term)| Attempt { replies, term });
+    (
+        prop_oneof![4 => Just(Class::Chunk), 2 => Just(Class::Pad), 1 => Just(Class::Tx)],
+        proptest::collection::vec((1u8..5, prop_oneof![3 => Just(true), 1 => Just(false)]), 3),
+        prop_oneof![1 => Just(Q::One), 3 => Just(Q::Majority), 3 => Just(Q::All), 3 => (2u8..=5).prop_map(Q::N)],
+        prop_oneof![6 => Just(Target::None), 2 => (0u8..3).prop_map(Target::Version)],
+        2u8..=4,
+        proptest::collection::vec(attempt, 1..=4),
+    )
+        .prop_map(|(class, pads, q, target, allowed, attempts)| RetryCase { class, pads, q, target, allowed, attempts })
+        .boxed()
+}
+
+thread_local! {
+    static RETRY_SIM: std::cell::RefCell<Option<std::mem::ManuallyDrop<DriverSim>>> = const { std::cell::RefCell::new(None) };
+}
+
+pub fn check_retry(case: &RetryCase, ctx: &mut Ctx) {
+    let mut sim = RETRY_SIM
+        .with(|s| s.borrow_mut().take())
+        .map(std::mem::ManuallyDrop::into_inner)
+        .unwrap_or_else(|| DriverSim::new_client_paused(keypair_from_seed(0x5006)));
+    check_retry_with(&mut sim, case, ctx);
+    if ctx.failed() || !sim.driver.verif_pending_get_record().is_empty() {
+        drop(sim);
+    } else {
+        RETRY_SIM.with(|s| *s.borrow_mut() = Some(std::mem::ManuallyDrop::new(sim)));
+    }
+}
+
+fn check_retry_with(sim: &mut DriverSim, case: &RetryCase, ctx: &mut Ctx) {
+    let proto = Case { class: case.class, pads: case.pads.clone(), callers: vec![], replies: vec![], term: Term::Finished, trailing: vec![] };
+    let v = versions(&proto);
+    let nver = v.values.len();
+    let target = match case.target {
+        Target::None => None,
+        Target::Version(i) => Some(fix::record(v.key.clone(), v.values[i as usize % nver].clone())),
+        Target::Other => None,
+    };
+    let allowed = case.allowed.max(1) as usize;
+    let cfg = GetRecordCfg {
+        get_quorum: quorum(case.q),
+        retry_strategy: Some(ant_protocol::storage::RetryStrategy::N(NonZeroUsize::new(allowed).unwrap())),
+        target_record: target,
+        expected_holders: HashSet::new(),
+        is_register: false,
+    };
+    let result: Arc<Mutex<Option<Outcome>>> = Arc::new(Mutex::new(None));
+    {
+        let (net, key, res) = (sim.net.clone(), v.key.clone(), result.clone());
+        sim.rt.block_on(async {
+            tokio::spawn(async move {
+                let r = net.get_record_from_network(key, &cfg).await;
+                *res.lock().unwrap() = Some(r);
+            });
+        });
+    }
+    // distinct peers per version, per attempt and over all attempts
+    let mut all_seen: BTreeMap<usize, BTreeSet<u8>> = BTreeMap::new();
+    let mut per_attempt: Vec<BTreeMap<usize, BTreeSet<u8>>> = vec![];
+    let mut queries_issued = 0usize;
+    let done = |r: &Arc<Mutex<Option<Outcome>>>| r.lock().unwrap().is_some();
+    for round in 0..(2 * allowed + 4) {
+        sim.run_tasks(3);
+        let cmds: Vec<NetworkSwarmCmd> = sim.network_cmds.drain(..).collect();
+        for cmd in cmds {
+            let _ = sim.handle_network(cmd);
+        }
+        if done(&result) {
+            break;
+        }
+        let pending = sim.driver.verif_pending_get_record();
+        let Some((qid, _, _)) = pending.iter().find(|(_, k, _)| *k == v.key).cloned() else {
+            // the caller sleeps between attempts: let the paused clock pass its back-off
+            sim.rt.block_on(async { tokio::time::advance(std::time::Duration::from_secs(40)).await });
+            continue;
+        };
+        queries_issued += 1;
+        let script = case.attempts.get(queries_issued - 1);
+        let mut seen: BTreeMap<usize, BTreeSet<u8>> = BTreeMap::new();
+        if let Some(a) = script {
+            for (ei, r) in a.replies.iter().enumerate() {
+                if !sim.driver.verif_pending_get_record().iter().any(|(id, _, _)| *id == qid) {
+                    break;
+                }
+                let ver = r.ver as usize % nver;
+                seen.entry(ver).or_default().insert(r.peer.min(8));
+                all_seen.entry(ver).or_default().insert(r.peer.min(8));
+                let peer = if r.peer >= 8 { None } else { Some(fix::peer(100 + r.peer as u64)) };
+                let ev = found_event(qid, peer, fix::record(v.key.clone(), v.values[ver].clone()), ei + 1);
+                let _ = sim.with_driver(|d| d.verif_handle_kad_event(ev));
+                sim.run_tasks(2);
+            }
+        }
+        per_attempt.push(seen);
+        if sim.driver.verif_pending_get_record().iter().any(|(id, _, _)| *id == qid) {
+            let term = script.map(|a| a.term).unwrap_or(Term::NotFound);
+            let ev = term_event(qid, &v.key, term, 99);
+            let _ = sim.with_driver(|d| d.verif_handle_kad_event(ev));
+            sim.run_tasks(2);
+        }
+        let _ = round;
+    }
+    sim.run_tasks(3);
+    ctx.label(format!("queries_issued_{}", queries_issued.min(5)));
+    ctx.label(format!("class_{:?}", case.class));
+    ctx.nontrivial_if(queries_issued >= 2);
+    if queries_issued > allowed {
+        ctx.fail("more_attempts_than_the_retry_strategy_allows", format!("{queries_issued} queries issued, strategy allows {allowed}"));
+    }
+    let out = result.lock().unwrap().take();
+    let Some(out) = out else {
+        ctx.fail("caller_left_waiting", format!("no outcome after {queries_issued} attempts were answered and terminated (allowed {allowed})"));
+        return;
+    };
+    let q = q_value(case.q);
+    match out {
+        Ok(rec) => {
+            ctx.label("value_returned");
+            if rec.key != v.key {
+                ctx.fail("value_under_other_key_returned", format!("{:?}", rec.key));
+                return;
+            }
+            let versions_seen: Vec<usize> = all_seen.keys().copied().collect();
+            let matching = (0..nver).find(|i| v.values[*i] == rec.value);
+            // the merge of differing versions of one attempt is a legal value too
+            let merged = per_attempt.iter().any(|s| s.len() > 1 && is_merge(&proto, &v, &s.keys().copied().collect::<Vec<_>>(), &rec));
+            if merged {
+                ctx.label("merged_result");
+                return;
+            }
+            let Some(i) = matching else {
+                ctx.fail("value_is_no_received_version_nor_merge", format!("{} bytes; versions received {versions_seen:?}", rec.value.len()));
+                return;
+            };
+            // lenient on purpose: distinct peers are counted over ALL attempts of this caller
+            let distinct = all_seen.get(&i).map(|s| s.len()).unwrap_or(0);
+            if distinct < q {
+                ctx.fail(
+                    "value_without_quorum_after_retries",
+                    format!("quorum {q}: version {i} was returned although over all {queries_issued} attempts only {distinct} distinct peers returned it (per attempt: {per_attempt:?})"),
+                );
+            }
+            if let Target::Version(t) = case.target {
+                if v.values[t as usize % nver] != rec.value {
+                    ctx.fail("value_not_matching_expected_target", format!("returned version {i}, expected {t}"));
+                }
+            }
+            // a value by quorum while the attempt that produced it (the last one made) saw differing content
+            if per_attempt.last().map(|s| s.len() > 1).unwrap_or(false) {
+                ctx.fail("one_version_returned_although_peers_returned_differing_content", format!("per attempt: {per_attempt:?}, returned version {i}"));
+            }
+        }
+        Err(NetworkError::InternalMsgChannelDropped) => ctx.fail("caller_channel_dropped", "the request channel was dropped instead of answering".to_string()),
+        Err(_) => ctx.label("error_returned"),
+    }
+}
+
 pub fn run(cfg: RunCfg) {
     let mut rep = Report::new(cfg, "exploration");
     rep.rule = "C05: quorum cfg x 1-4 callers (attaching at generated points) x up to 3 content versions (chunk-like, transaction sets, registers, scratchpads) x reply sequences over 8 peers + self with duplicates x terminator; replies and terminators injected as kad events into the real SwarmDriver, callers are real Network::get_record_from_network futures.".into();
@@ -481,6 +663,11 @@ pub fn run(cfg: RunCfg) {
         rep, "quorum", (40_000, 1_000_000), 16,
         "non-trivial: >=2 versions seen, or a duplicate peer, or the terminator arrives before quorum; distinct by whole case",
         case_strategy, check
+    );
+    vh_core::section!(
+        rep, "retry", (6_000, 200_000), 16,
+        "one caller with RetryStrategy::N(2..4) on a client driver whose clock is paused; each attempt's query is answered by a generated reply list and terminator, the back-off is passed by advancing the clock; a value needs the quorum of distinct peers (counted leniently over all attempts), at most the allowed number of attempts, exactly one outcome; non-trivial: >= 2 attempts were made",
+        retry_strategy, check_retry
     );
     vh_core::fuzz_section!(rep, "quorum", case_strategy, check, "sec_store", "store", 150_000, 240, 8);
     rep.finish();
